@@ -1,0 +1,146 @@
+//! Verification hooks (only with `--cfg woodpile_verif`): the encoder and decoder state machines
+//! driven with caller-chosen chunk limits, so that small-scope exploration reaches every
+//! chunk-boundary interaction.  These wrappers mirror `Encoder` / `Decoder`, which always use the
+//! production limits.
+use std::num::NonZeroUsize;
+
+use owning_iovec::AnchoredSlice;
+use owning_iovec::ConsumingIovec;
+use owning_iovec::OwningIovec;
+
+use crate::decoder::DecoderState;
+use crate::encoder::EncoderState;
+use crate::DecodingError;
+use crate::Parameters;
+
+fn params(max_initial: usize, max_subsequent: usize) -> Parameters {
+    Parameters {
+        max_initial_size: NonZeroUsize::new(max_initial).expect("non-zero"),
+        max_subsequent_size: NonZeroUsize::new(max_subsequent).expect("non-zero"),
+    }
+}
+
+/// The production limits `(max_initial_size, max_subsequent_size)`.
+pub fn prod_params() -> (usize, usize) {
+    (
+        crate::PROD_PARAMS.max_initial_size.get(),
+        crate::PROD_PARAMS.max_subsequent_size.get(),
+    )
+}
+
+/// `Encoder` with explicit limits.
+pub struct ParamEncoder<'this> {
+    state: EncoderState,
+    iovec: OwningIovec<'this>,
+    params: Parameters,
+}
+
+impl<'this> ParamEncoder<'this> {
+    pub fn new(max_initial: usize, max_subsequent: usize) -> Self {
+        let params = params(max_initial, max_subsequent);
+        let mut iovec = OwningIovec::new();
+        ParamEncoder {
+            state: EncoderState::new(&mut iovec, params),
+            iovec,
+            params,
+        }
+    }
+
+    pub fn consumer(&mut self) -> ConsumingIovec<'_> {
+        self.iovec.consumer()
+    }
+
+    pub fn iovec(&mut self) -> &mut OwningIovec<'this> {
+        &mut self.iovec
+    }
+
+    pub fn encode(&mut self, data: &'this [u8]) {
+        let mut state = Default::default();
+        std::mem::swap(&mut state, &mut self.state);
+        self.state = state.encode_borrow(&mut self.iovec, self.params, data);
+    }
+
+    pub fn encode_copy(&mut self, data: &[u8]) {
+        let mut state = Default::default();
+        std::mem::swap(&mut state, &mut self.state);
+        self.state = state.encode_copy(&mut self.iovec, self.params, data);
+    }
+
+    pub fn encode_anchored(&mut self, data: AnchoredSlice) {
+        let (_, slice, anchor) = unsafe { data.components() };
+        if slice.is_empty() {
+            return;
+        }
+        self.encode(slice);
+        self.iovec.push_anchor(anchor);
+    }
+
+    pub fn finish(mut self) -> OwningIovec<'this> {
+        self.state.terminate(&mut self.iovec);
+        self.iovec
+    }
+
+    /// `(max_chunk_size, current_chunk_size, maybe_mid_stuff)`
+    pub fn state(&self) -> (usize, usize, bool) {
+        self.state.verif_state()
+    }
+}
+
+/// `Decoder` with explicit limits.
+pub struct ParamDecoder<'this> {
+    state: DecoderState,
+    iovec: OwningIovec<'this>,
+    params: Parameters,
+}
+
+impl<'this> ParamDecoder<'this> {
+    pub fn new(max_initial: usize, max_subsequent: usize) -> Self {
+        ParamDecoder {
+            state: DecoderState::new(),
+            iovec: OwningIovec::new(),
+            params: params(max_initial, max_subsequent),
+        }
+    }
+
+    pub fn consumer(&mut self) -> ConsumingIovec<'_> {
+        self.iovec.consumer()
+    }
+
+    pub fn iovec(&mut self) -> &mut OwningIovec<'this> {
+        &mut self.iovec
+    }
+
+    pub fn decode(&mut self, data: &'this [u8]) -> Result<(), DecodingError> {
+        let mut state = Default::default();
+        std::mem::swap(&mut state, &mut self.state);
+        self.state = state.decode_borrow(&mut self.iovec, self.params, data)?;
+        Ok(())
+    }
+
+    pub fn decode_copy(&mut self, data: &[u8]) -> Result<(), DecodingError> {
+        let mut state = Default::default();
+        std::mem::swap(&mut state, &mut self.state);
+        self.state = state.decode_copy(&mut self.iovec, self.params, data)?;
+        Ok(())
+    }
+
+    pub fn decode_anchored(&mut self, data: AnchoredSlice) -> Result<(), DecodingError> {
+        let (_, slice, anchor) = unsafe { data.components() };
+        if slice.is_empty() {
+            return Ok(());
+        }
+        let ret = self.decode(slice);
+        self.iovec.push_anchor(anchor);
+        ret
+    }
+
+    pub fn finish(self) -> Result<OwningIovec<'this>, DecodingError> {
+        self.state.terminate()?;
+        Ok(self.iovec)
+    }
+
+    /// `(state tag: 0 initial, 1 before chunk, 2 mid header, 3 in chunk; remaining; flag)`
+    pub fn state(&self) -> (u8, usize, bool) {
+        self.state.verif_state()
+    }
+}
